@@ -34,7 +34,9 @@ Inductive exn :=
   | E_index_high      (* runtime_error "Input value too high" *)
   | E_vec_count       (* runtime_error "Wrong number of elements when parsing vector." *)
   | E_row_args        (* runtime_error "Parsing error: wrong number of arguments" (case 2) *)
-  | E_colons.         (* runtime_error "Parsing error: wrong number of ':'" *)
+  | E_colons          (* runtime_error "Parsing error: wrong number of ':'" *)
+  | E_discount        (* invalid_argument from Model::setDiscount *)
+  | E_probability.    (* invalid_argument from setTransitionFunction / setObservationFunction *)
 
 Inductive res (A : Type) :=
   | Ok (a : A)
@@ -428,8 +430,8 @@ Definition max_elems : N := 2305843009213693951%N.
    Allocation of tables that fit in size_t is assumed to succeed (no bad_alloc).
    Today's code ([fixed = false]) computes S*A*S modulo 2^64: when that wraps, the tables are
    smaller than their shape and the accesses are out of bounds — modelled as [UB] at once. *)
-Definition parse_lines (fixed pomdp : bool) (ls : list lline) : res model :=
-  r <- parseModelInfo ls pre0 ;;
+Definition parse_lines_from (fixed pomdp : bool) (p0 : pre) (ls : list lline) : res model :=
+  r <- parseModelInfo ls p0 ;;
   let p := fst r in let body := snd r in
   if (pS p =? 0)%N || (pA p =? 0)%N || (pomdp && (pO p =? 0)%N) then Throw E_incomplete
   else if (max_elems <? pS p * pA p * pS p)%N || (pomdp && (max_elems <? pS p * pA p * pO p)%N)
@@ -440,6 +442,25 @@ Definition parse_lines (fixed pomdp : bool) (ls : list lline) : res model :=
     let t0 := mkTabs (new_tab nS nA nS) (new_tab nS nA nS) (if pomdp then new_tab nS nA nO else []) in
     t <- main_loop (length body) fixed pomdp nS nA nO p body t0 ;;
     Ok (mkModel nS nA nO (pD p) (tT t) (tR t) (tW t)).
+
+(* a freshly constructed parser: the three maps are empty *)
+Definition parse_lines (fixed pomdp : bool) (ls : list lline) : res model := parse_lines_from fixed pomdp pre0 ls.
+
+(* Re-use of one CassandraParser object: parseModelInfo resets lines_, S_, A_, O_ and discount_ but NOT
+   stateMap_/actionMap_/observationMap_ (extractIDs clears a map only when its declaration line is
+   met).  [pstate] is what an earlier call (finished or aborted by an exception) may have left. *)
+Record pstate := mkPstate { stS : idmap; stA : idmap; stO : idmap }.
+Definition pre_of (st : pstate) : pre := mkPre 0%N 0%N 0%N (VQ 1%Q) (stS st) (stA st) (stO st).
+Definition parse_lines_st (fixed pomdp : bool) (st : pstate) (ls : list lline) : res model :=
+  parse_lines_from fixed pomdp (pre_of st) ls.
+Definition parse_text_st (fixed pomdp : bool) (st : pstate) (text : str) : res model :=
+  parse_lines_st fixed pomdp st (lex_text text).
+(* the maps after a call that returned normally *)
+Definition state_after (st : pstate) (ls : list lline) : pstate :=
+  match parseModelInfo ls (pre_of st) with
+  | Ok r => mkPstate (mS (fst r)) (mA (fst r)) (mO (fst r))
+  | _ => st
+  end.
 
 Definition parse_text (fixed pomdp : bool) (text : str) : res model :=
   parse_lines fixed pomdp (lex_text text).
@@ -457,3 +478,48 @@ Definition size_class (pomdp : bool) (text : str) : nat :=
       if (max_elems <? m)%N then 2 else if (20000 <? m)%N then 1 else 0
   | _ => 0
   end.
+
+(* ================================================================ from the tuples to a Model object
+   src: src/MDP/IO.cpp:parseCassandra  = parseMDP, then MDP::Model(S, A, T, R, discount)
+        src/POMDP/IO.cpp:parseCassandra = parsePOMDP, then POMDP::Model<MDP::Model>(O, W, S, A, T, R, discount)
+   The constructors validate: setDiscount, then isProbability on every T[s][a], then (POMDP) on every
+   W[s'][a].  Doubles are [val] with IEEE comparisons (every comparison with NaN is false). *)
+Definition vlt0 (v : val) : bool :=         (* v < 0.0 *)
+  match v with VQ q => negb (Qle_bool 0 q) | VInf neg => neg | VNaN => false end.
+Definition vadd (a b : val) : val :=        (* a + b, exact on finite values *)
+  match a, b with
+  | VNaN, _ | _, VNaN => VNaN
+  | VQ x, VQ y => VQ (Qplus x y)
+  | VInf s, VInf t => if Bool.eqb s t then VInf s else VNaN
+  | VInf s, VQ _ | VQ _, VInf s => VInf s
+  end.
+Definition epsSmall : Q := (1 # 1000000)%Q.
+(* src: Utils/Core.hpp:checkEqualSmall(p, 1.0) — fabs(p - 1.0) <= 1e-6 *)
+Definition eq_small_1 (p : val) : bool :=
+  match p with
+  | VQ x => Qle_bool (Qminus x 1) epsSmall && Qle_bool (Qminus 1 x) epsSmall
+  | _ => false
+  end.
+(* src: Utils/Probability.hpp:isProbability(size, in) — None = early "return false" *)
+Fixpoint prob_loop (p : val) (l : list val) : option val :=
+  match l with
+  | [] => Some p
+  | v :: t => if vlt0 v then None else prob_loop (vadd p v) t
+  end.
+Definition isProbability1 (l : list val) : bool :=
+  match prob_loop (VQ 0%Q) l with None => false | Some p => eq_small_1 p end.
+(* src: isProbability(S, A, S, t) / the double loop of setObservationFunction *)
+Definition isProbability3 (t : tab) : bool := forallb (forallb isProbability1) t.
+(* src: MDP/Model.cpp:setDiscount — if (!(d > 0.0 && d <= 1.0)) throw *)
+Definition discount_ok (d : val) : bool :=
+  match d with VQ q => negb (Qle_bool q 0) && Qle_bool q 1 | _ => false end.
+
+Definition validate (pomdp : bool) (m : model) : res model :=
+  if negb (discount_ok (mDisc m)) then Throw E_discount
+  else if negb (isProbability3 (mT m)) then Throw E_probability
+  else if pomdp && negb (isProbability3 (mW m)) then Throw E_probability
+  else Ok m.
+
+Definition load_lines (fixed pomdp : bool) (ls : list lline) : res model :=
+  m <- parse_lines fixed pomdp ls ;; validate pomdp m.
+Definition load_model (fixed pomdp : bool) (text : str) : res model := load_lines fixed pomdp (lex_text text).
